@@ -84,6 +84,12 @@ def gen_base(rng, tier, index):
         # "everything in one chunk" spelled as a huge chunk size (sys.maxsize, 2**100, infinity)
         call.update(chunk=n + 5, chunk_special=["maxsize", "huge", "inf"][(index // 8) % 3])
         call.pop("durations", None)
+    if index % 16 == 10:
+        # more workers than chunks with a chunk size above one (this base runs in a shard that turns the library's own warnings
+        # into errors)
+        case["workers"] = 4
+        call.update(n=7, chunk=5)
+        call.pop("request_response", None)
     if index % 8 == 6:
         case["worker_opts"] = {"functor_forks_a_child": True}      # the functor uses a helper process of its own
     return case
